@@ -25,7 +25,7 @@ def check_C14(tier, seed):
 
 def check_C15(tier, seed):
     return standard_check(
-        "C15", tier, seed, "files", ["c15_naming", "c15_routing"],
+        "C15", tier, seed, "files", ["c15_naming", "c15_routing", "c15_api"],
         trusted=["Unicode tables (char::is_alphanumeric, is_lowercase, str::to_lowercase) and sha256 are supplied to the model by the harness as oracle leaves; the theorems quantify over arbitrary tables"],
         assumptions=["column names within one partition are pairwise distinct"],
         rule="table names from a 40-name adversarial pool (dots, slashes, case pairs, non-ASCII, reserved-looking names) plus generated names around the 189/255 length edges; "
